@@ -13,7 +13,8 @@ class RLVCommand(NamedTuple):
 class RLVParser:
     @staticmethod
     def is_rlv_message(msg: Message) -> bool:
-        chat: str = msg["ChatData"]["Message"]
+        # May be stringy bytes rather than a real str if it wasn't valid, singly-terminated UTF-8
+        chat: str = str(msg["ChatData"]["Message"])
         chat_type: int = msg["ChatData"]["ChatType"]
         return chat and chat.startswith("@") and chat_type == ChatType.OWNER
 
